@@ -153,22 +153,23 @@ def discover(raw):
         if unit != CORE + "-lib" or b["kind"] != "AssocFn" or "impl_trait" in b:
             continue
         args, ret = sig(b)
-        if ret.endswith("::SnapshotUrgency") and len(args) == 2 and args[0].endswith("ServerConfig"):
+        # (the target is read from &ServerConfig, or passed as a scalar of the measure's own type)
+        if ret.endswith("::SnapshotUrgency") and len(args) == 2 and (args[0].endswith("ServerConfig") or args[0] == args[1]):
             if args[1] == "i64":
                 fd.append(b["def"])
             elif args[1] == "u32":
                 fv.append(b["def"])
-    want_fn(fd, CORE + "::server::SnapshotUrgency::for_days", "the only fn (&ServerConfig, i64) -> SnapshotUrgency")
-    want_fn(fv, CORE + "::server::SnapshotUrgency::for_versions_since", "the only fn (&ServerConfig, u32) -> SnapshotUrgency")
+    want_fn(fd, CORE + "::server::SnapshotUrgency::for_days", "the only fn (&ServerConfig | i64, i64) -> SnapshotUrgency")
+    want_fn(fv, CORE + "::server::SnapshotUrgency::for_versions_since", "the only fn (&ServerConfig | u32, u32) -> SnapshotUrgency")
     # the client-id helper: the workspace fn every handler calls with (state, &req) and whose Ok value is a Uuid
     cid = []
     for unit, b in bodies():
         if unit != SERVER + "-lib" or b["kind"] not in ("Fn", "AssocFn"):
             continue
         args, ret = sig(b)
-        if ret.startswith("core::result::Result<uuid::Uuid, actix_web::error::error::Error") and any("HttpRequest" in a for a in args):
+        if ret.startswith("core::result::Result<uuid::Uuid, actix_web::error::error::Error") and any("HttpRequest" in a or "HeaderMap" in a for a in args):
             cid.append(b["def"])
-    want_fn(cid, WD.CLIENT_ID_HEADER_FN, "the only fn (.., &HttpRequest) -> Result<Uuid, actix Error>")
+    want_fn(cid, WD.CLIENT_ID_HEADER_FN, "the only fn (.., &HttpRequest | &HeaderMap) -> Result<Uuid, actix Error>")
     # the query helper of the sqlite transaction: inherent method on the txn type taking the SQL text
     qh = []
     for unit, b in bodies():
